@@ -14,6 +14,12 @@ Families
  (iii) crafted: nesting depth 10..3000, extreme / negative lengths in every
        length position, bad field counts, duplicate / unhashable keys, hellos
        with every wrong padding length; also with a tracemalloc peak bound
+ (vi)  records of EVERY id in the class registry (the library's own
+       bookkeeping classes included, not only the harness's classes): the
+       shortest records (id alone, field count 0 / 1 / one too few) alone and
+       repeated n times in a sequence / set / map / nested sequence, through
+       loadb and inside a forged client hello; work, tracemalloc peak and the
+       number of values the result holds, per input byte
 All through Serializable.loadb; the handshake families also through the real
 _recvClientHello / _recvChallengeResponse / _recvServerHello.
 """
@@ -37,6 +43,15 @@ CALLS_PER_BYTE = 64
 CALLS_BASE = 512
 MEM_PER_BYTE = 64
 MEM_BASE = 1024 * 1024  # covers the interpreter stack of a recursion that the recursion limit bounds (measured: <= 0.5 MB at 1000 levels)
+
+# family (vi) only: a record is the densest input there is (5 bytes buy one instance with all its default fields), so the
+# memory bound per byte is its own constant.  Measured on the unchanged library with tracemalloc: < 90 bytes per input byte
+# (empty ConnectionStats records, 10 fields, 5 of them empty lists, in a set of 16384), <= 55 for every other registered class; the margin is the
+# one the call bound has (64 against <= 14 observed)
+REC_MEM_PER_BYTE = 256
+# values reachable from the decoded result (every object counted once): measured <= 3.3 per input byte (16 values per 5-byte record)
+VALUES_PER_BYTE = 16
+VALUES_BASE = 64
 
 ALLOWED = (bool, int, float, str, bytes, type(None), list, dict, set, tuple)
 
@@ -219,6 +234,151 @@ def nested_hello_work_init(tier):
     work_init(tier)
 
 
+# ---------------------------------------------------------------------------
+# family (vi): records of EVERY registered id.  The decoder instantiates the registered class for each occurrence of its type id,
+# so whatever constructing that class costs is paid once per record, and the shortest record is 2..5 bytes.  The classes the
+# library registers for its own bookkeeping are reachable this way as well as the message classes, so the family runs over the
+# registry as it is (the library's classes and the harness's), never over a list of names.
+
+def record_forms(tid, cls):
+    """the shortest records of one registered id: [(form name, bytes)]"""
+    H = lambda x: struct.pack(">H", x)  # noqa
+    i8 = lambda v: H(3) + struct.pack(">b", v)  # noqa
+    forms = [("id alone", H(tid)), ("field count 0", H(tid) + i8(0)), ("field count 1, null", H(tid) + i8(1) + H(15))]
+    nf = len(getattr(cls, "_fields", ()) or ())
+    if nf - 1 > 1:
+        forms.append(("field count %d of %d, nulls" % (nf - 1, nf), H(tid) + (i8(nf - 1) if nf - 1 < 128 else H(5) + struct.pack(">l", nf - 1)) + H(15) * (nf - 1)))
+    return forms
+
+
+def _hello_prefix():
+    """type id and key field of the honest client hello; the version field follows"""
+    from mc import seams
+    hello = _HS["client_hello"]
+    prefix = hello[:2] + enc(seams.fixture_keys()[1].getPublicKey().getBytes())
+    assert hello.startswith(prefix), "hello layout changed"
+    return prefix
+
+
+def record_counts(tier=None):
+    from mpgameserver.serializable import MAX_ARRAY_LENGTH
+    from mpgameserver.connection import Packet, PacketHeader
+    # as many 5-byte records as one datagram of the size the server reads from its socket holds behind the key of a hello
+    dgram = (Packet.RECV_SIZE - PacketHeader.SIZE - PacketHeader.CRC_SIZE - len(_hello_prefix()) - 8 - 16) // 5
+    ns = [1, 16, dgram, 1024]
+    if (tier or _TIER) == "thorough":
+        ns += [MAX_ARRAY_LENGTH]
+    return sorted(set(ns))
+
+
+def record_cases():
+    """[(name, bytes)]: every record form of every registered id, alone and n times in each container position"""
+    H = lambda x: struct.pack(">H", x)  # noqa
+    i32 = lambda v: H(5) + struct.pack(">l", v)  # noqa
+    hello_prefix = _hello_prefix()
+    out = []
+    for tid in sorted(SerializableType.registry):
+        cls = SerializableType.registry[tid]
+        for fname, rec in record_forms(tid, cls):
+            label = "%s (id %d) record, %s" % (cls.__name__, tid, fname)
+            out.append((label + ", alone", rec))
+            for n in record_counts():
+                shapes = [("seq[%d]" % n, H(16) + i32(n) + rec * n),
+                          ("set[%d]" % n, H(18) + i32(n) + rec * n),
+                          ("map[%d] values" % n, H(17) + i32(n) + b"".join(i32(k) + rec for k in range(n))),
+                          ("map[%d] keys" % n, H(17) + i32(n) + (rec + H(15)) * n)]
+                if n >= 16:
+                    shapes.append(("seq[4] of seq[%d]" % (n // 4), H(16) + i32(4) + (H(16) + i32(n // 4) + rec * (n // 4)) * 4))
+                    shapes.append(("map[4] of seq[%d]" % (n // 4), H(17) + i32(4) + b"".join(i32(k) + H(16) + i32(n // 4) + rec * (n // 4) for k in range(4))))
+                    # a client hello with a good key whose version field is the sequence (the decoder takes any value there)
+                    shapes.append(("client hello with version = seq[%d]" % n, hello_prefix + H(16) + i32(n) + rec * n + b"\x00" * 16))
+                if fname == "id alone" and n > 16 and _TIER == "quick":
+                    # the next id is read as the field count: a recursion that ends at the recursion limit whatever the container
+                    # is.  quick keeps the sequence and the hello, thorough every container
+                    shapes = [sh for sh in shapes if sh[0].startswith("seq[%d]" % n) or sh[0].startswith("client hello")]
+                for sname, m in shapes:
+                    out.append(("%s, %s" % (label, sname), m))
+    return out
+
+
+def count_values(v):
+    """number of values reachable from a decoded value, every object once"""
+    seen = set()
+    stack = [v]
+    n = 0
+    while stack:
+        x = stack.pop()
+        n += 1
+        if isinstance(x, (list, tuple, set, frozenset, dict, Serializable)):
+            if id(x) in seen:
+                continue
+            seen.add(id(x))
+            if isinstance(x, dict):
+                stack.extend(x.keys())
+                stack.extend(x.values())
+            elif isinstance(x, Serializable):
+                stack.extend(getattr(x, f, None) for f in x._fields)
+            else:
+                stack.extend(x)
+        elif isinstance(x, SerializableEnum):
+            stack.append(x.value)
+    return n
+
+
+def record_probe(m, entry, name=""):
+    """-> (outcome class, violation-or-None, calls, values per byte)"""
+    cls, bad, calls, vpb = _record_probe(m, entry)
+    if bad and name:
+        bad = (bad[0], bad[1], "%s: %s%s" % (bad[2], name, "" if entry == "loadb" else ", handed to _recvClientHello"))
+    return cls, bad, calls, vpb
+
+
+def _record_probe(m, entry):
+    if entry == "loadb":
+        keep = []
+        cls, bad, calls = probe(m, mem=True, mem_per_byte=REC_MEM_PER_BYTE, keep=keep)
+        vpb = 0.0
+        if not bad and keep:
+            nv = count_values(keep[0])
+            vpb = nv / (len(m) + 8.0)
+            if nv > VALUES_PER_BYTE * len(m) + VALUES_BASE:
+                cls, bad = "over-values", ("memory-bound", "decoder returned a value that holds more than %d*len+%d values" % (VALUES_PER_BYTE, VALUES_BASE),
+                                           "%d values for %d input bytes" % (nv, len(m)))
+        return cls, bad, calls, vpb
+    cls, bad, calls = probe(m, fn=handshake_entry(entry), mem=True, mem_per_byte=REC_MEM_PER_BYTE)
+    return cls, bad, calls, 0.0
+
+
+def records_work(arg):
+    k, n = arg
+    acc = {"counts": core.Counter(), "viols": {}}
+    total = 0
+    maxratio = 0.0
+    maxvpb = 0.0
+    from mpgameserver.connection import Packet, PacketHeader
+    room = Packet.RECV_SIZE - PacketHeader.SIZE - PacketHeader.CRC_SIZE
+    for i, (name, m) in enumerate(record_cases()):
+        if i % n != k:
+            continue
+        for entry in ("loadb", "client_hello"):
+            if entry == "client_hello" and _TIER == "quick" and len(m) > room:
+                continue    # quick: the hello entry gets what fits into one datagram; thorough: everything
+            total += 1
+            cls, bad, calls, vpb = record_probe(m, entry, name)
+            if entry == "loadb":
+                maxratio = max(maxratio, calls / (len(m) + 8.0))
+            maxvpb = max(maxvpb, vpb)
+            fold(acc, "records-%s:%s" % (entry, cls), bad, {"family": "records", "name": name, "entry": entry, "len": len(m)})
+    bad = canary_check()
+    if bad:
+        acc["viols"].setdefault(("state-poisoning", bad[0]), [0, {"family": "canary", "after": ["records", k, n]}, bad[1]])[0] += 1
+    return total, dict(acc["counts"]), acc["viols"], maxratio, maxvpb, record_counts(), len(SerializableType.registry)
+
+
+def records_work_init(tier):
+    work_init(tier)
+
+
 def safe_repr(x):
     try:
         return repr(x)[:200]
@@ -226,9 +386,10 @@ def safe_repr(x):
         return "<%s: repr raised %s>" % (type(x).__name__, type(e).__name__)
 
 
-def probe(data, fn=None, mem=False):
-    """run the decoder on data; returns (class, violation-or-None)"""
+def probe(data, fn=None, mem=False, mem_per_byte=None, keep=None):
+    """run the decoder on data; returns (class, violation-or-None).  keep: a list that receives the decoded value"""
     fn = fn or Serializable.loadb
+    mem_per_byte = MEM_PER_BYTE if mem_per_byte is None else mem_per_byte
     limit = CALLS_PER_BYTE * len(data) + CALLS_BASE
     meter = Meter(limit)
     peak = 0
@@ -262,9 +423,11 @@ def probe(data, fn=None, mem=False):
     if meter.n > limit or out[0] == "aborted":
         return "over-budget", ("work-bound", "decoder executed more than %d*len+%d calls (or ran past the %.0f CPU-second watchdog)" % (CALLS_PER_BYTE, CALLS_BASE, WATCHDOG_S),
                                "aborted after %d calls for %d input bytes (limit %d)" % (meter.n, len(data), limit)), meter.n
-    if mem and peak > MEM_PER_BYTE * len(data) + MEM_BASE:
-        return "over-memory", ("memory-bound", "decoder allocated more than %d*len+%d bytes" % (MEM_PER_BYTE, MEM_BASE),
+    if mem and peak > mem_per_byte * len(data) + MEM_BASE:
+        return "over-memory", ("memory-bound", "decoder allocated more than %d*len+%d bytes" % (mem_per_byte, MEM_BASE),
                                "peak %d bytes for %d input bytes" % (peak, len(data))), meter.n
+    if keep is not None and out[0] == "value":
+        keep.append(out[1])
     if out[0] == "base-exception":
         return "base-exception", ("exception-kind", "decoder raised a non-ordinary exception %s" % type(out[1]).__name__, safe_repr(out[1])), meter.n
     if out[0] == "value" and fn is Serializable.loadb:
@@ -607,6 +770,11 @@ def run(tier, seed):
     maxratio = 0.0
     res = list(res) + list(core.pmap("checks.c14", "registry_work", [(k, 16) for k in range(16)], initargs=(tier,)))
     res = res + list(core.pmap("checks.c14", "nested_hello_work", [(k, 16) for k in range(16)], initargs=(tier,)))
+    rec_res = list(core.pmap("checks.c14", "records_work", [((k + seed) % 32, 32) for k in range(32)], initargs=(tier,)))
+    rec_total = sum(r[0] for r in rec_res)
+    rec_maxvpb = max([r[4] for r in rec_res] or [0.0])
+    rec_maxratio = max([r[3] for r in rec_res] or [0.0])
+    res = res + [r[:4] for r in rec_res]
     for t, counts, viols, mr in res:
         total += t
         maxratio = max(maxratio, mr)
@@ -621,10 +789,13 @@ def run(tier, seed):
     rep.coverage = {
         "evaluations": total, "distinct_nontrivial": sum(v for k, v in classes.items() if k == "value" or k.endswith(":value")),
         "rule": "families: all truncations + bit flips of every C13 encoding <=36 (quick) / 64 (thorough) bytes; every token sequence of length <=%d over %d tokens; truncations/bit flips/padding edits of the three handshake messages "
-                "through loadb and the real _recv* entry points; %d crafted inputs (nesting, extreme lengths, bad field counts) with a tracemalloc bound; registry in effect: a foreign class / enum id at every position of every container shape of depth <=3, decoded with a whitelist registry and with a remapping registry; a valid client hello with a version blob of every size 0..P+40 nested in a sequence / set / map announcing 16384 elements. non-trivial = inputs that decoded to a value (all others raised)" % (
+                "through loadb and the real _recv* entry points; %d crafted inputs (nesting, extreme lengths, bad field counts) with a tracemalloc bound; registry in effect: a foreign class / enum id at every position of every container shape of depth <=3, decoded with a whitelist registry and with a remapping registry; a valid client hello with a version blob of every size 0..P+40 nested in a sequence / set / map announcing 16384 elements; records of every id in the class registry (id alone, field count 0 / 1 / one too few) alone and n times in a sequence / set / map values / map keys / nested sequences / the version field of a client hello, through loadb and _recvClientHello, with a tracemalloc bound and a bound on the values the result holds. non-trivial = inputs that decoded to a value (all others raised)" % (
                     4 if tier == "quick" else 5, len(tokens()), len(crafted())),
         "outcome_classes": dict(classes), "max_calls_per_byte_observed": round(maxratio, 2),
-        "bounds": {"calls": "%d*len+%d" % (CALLS_PER_BYTE, CALLS_BASE), "memory(crafted only)": "%d*len+%d" % (MEM_PER_BYTE, MEM_BASE)},
+        "bounds": {"calls": "%d*len+%d" % (CALLS_PER_BYTE, CALLS_BASE), "memory(crafted only)": "%d*len+%d" % (MEM_PER_BYTE, MEM_BASE),
+                   "memory(records)": "%d*len+%d" % (REC_MEM_PER_BYTE, MEM_BASE), "values(records)": "%d*len+%d" % (VALUES_PER_BYTE, VALUES_BASE)},
+        "records": {"registered_ids": rec_res[0][6] if rec_res else 0, "repeat_counts": rec_res[0][5] if rec_res else [], "evaluations": rec_total,
+                    "max_calls_per_byte_observed": round(rec_maxratio, 2), "max_values_per_byte_observed": round(rec_maxvpb, 2)},
         "exhaustive": True,
         "samples": core.safe_samples(_samples),
     }
@@ -635,6 +806,12 @@ def run(tier, seed):
 
 def replay(witness):
     work_init("quick")
+    if witness.get("family") == "records":
+        for name, m in record_cases():
+            if name == witness["name"]:
+                cls, bad, calls, vpb = record_probe(m, witness["entry"], name)
+                return [core.Violation(bad[0], bad[1], witness, bad[2])] if bad else []
+        return []
     if witness.get("family") == "nested-hello":
         for name, m in nested_hello_cases():
             if name == witness["name"]:
